@@ -232,39 +232,77 @@ def unexport (s : State) (p : Pk) (n : Nm) : State :=
     f := if s.f.cell p n = some p then s.f.unexportOwn s.uses s.users p n else s.f,
     v := if s.v.cell p n = some p then s.v.unexportOwn s.uses s.users p n else s.v }
 
+/-- `q.Set(n, v)` for a package the caller may write to: `SetIfHas` (assignment through `q`'s
+    table, whoever owns the entry), else a new own unexported variable of `q`. -/
+def setqIn (s : State) (q : Pk) (n : Nm) (val : Option Nat) : State :=
+  match s.v.cell q n with
+  | some _ => { s with v := s.v.assign q n val }
+  | none => { s with v := s.v.create s.users q n { exp := false, val := val } }
+
 /-- `(setq n v)` at top level in the current package: `Scope.Set` → `CurrentPackage.Set` →
     `SetIfHas`, else a new own unexported variable. -/
-def setq (s : State) (n : Nm) (val : Option Nat) : State :=
-  match s.v.cell s.cur n with
-  | some _ => { s with v := s.v.assign s.cur n val }
-  | none => { s with v := s.v.create s.users s.cur n { exp := false, val := val } }
+def setq (s : State) (n : Nm) (val : Option Nat) : State := setqIn s s.cur n val
+
+/-- `(setq q:n v)` (`priv = false`) / `(setq q::n v)` (`priv = true`), `Scope.Set` with a package
+    qualified symbol: `vv := q.GetVarVal(n); vv != nil && (vv.Export || private)` → `q.Set(n, v,
+    private)`. Only an entry the form reaches is assigned (whoever owns it); nothing is created. -/
+def qsetq (s : State) (q : Pk) (n : Nm) (priv : Bool) (val : Nat) : State :=
+  match s.v.entry q n with
+  | some (_, d) => if d.exp ∨ priv = true then { s with v := s.v.assign q n (some val) } else s
+  | none => s
 
 /-- `(defvar n [v])`: nothing when the name is visible and bound, else like `setq`
     (`val = none`: no initial value, the variable is created unbound). -/
 def defvar (s : State) (n : Nm) (val : Option Nat) : State :=
   if (s.v.get s.cur n).isSome then s else setq s n val
 
+/-- `(defvar q:n [v])` / `(defvar q::n [v])` (cl:defvar with a package qualified symbol): nothing
+    when the form reaches a bound variable (`vv.Export || private || CurrentPackage == q`); an
+    entry it reaches that is unbound is assigned; an entry it does not reach is left alone
+    (`SetIfHas` refuses); without any entry a new own unexported variable of `q` is created. -/
+def qdefvar (s : State) (q : Pk) (n : Nm) (priv : Bool) (val : Option Nat) : State :=
+  match s.v.entry q n with
+  | some (_, d) =>
+    if d.exp ∨ priv = true ∨ s.cur = q then
+      (if d.val.isSome then s else { s with v := s.v.assign q n val })
+    else s
+  | none => setqIn s q n val
+
+/-- `(unintern 'n 'q)`: `q.Remove(n)` -/
+def unintern (s : State) (q : Pk) (n : Nm) : State :=
+  { s with v := s.v.remove s.uses s.users q n }
+
 /-- `(makunbound 'n)`: `CurrentPackage.Remove(n)` -/
-def makunbound (s : State) (n : Nm) : State :=
-  { s with v := s.v.remove s.uses s.users s.cur n }
+def makunbound (s : State) (n : Nm) : State := unintern s s.cur n
+
+/-- `(intern "n" 'q)`: a name `q`'s table does not hold becomes an own, unexported, unbound
+    variable of `q` (`q.Set(n, Unbound)`); otherwise nothing changes. -/
+def intern (s : State) (q : Pk) (n : Nm) : State :=
+  match s.v.cell q n with
+  | some _ => s
+  | none => setqIn s q n none
 
 /-- `(fmakunbound 'n)`: `CurrentPackage.Undefine(n)` -/
 def fmakunbound (s : State) (n : Nm) : State :=
   { s with f := s.f.remove s.uses s.users s.cur n }
 
-/-- `(defun n …)`: `CurrentPackage.DefLambda`. A visible function entry is redefined in place
-    (whoever owns it); otherwise a new own entry, exported when the package holds an own, unbound,
-    exported variable placeholder of that name (the name was exported before it was defined) —
-    the placeholder is consumed. -/
-def defun (s : State) (n : Nm) (body : Nat) : State :=
-  match s.f.cell s.cur n with
-  | some _ => { s with f := s.f.assign s.cur n (some body) }
+/-- `q.DefLambda(n, …)`. A function entry visible in `q` is redefined in place (whoever owns it);
+    otherwise a new own entry, exported when the package holds an own, unbound, exported variable
+    placeholder of that name (the name was exported before it was defined) — the placeholder is
+    consumed. -/
+def defunIn (s : State) (q : Pk) (n : Nm) (body : Nat) : State :=
+  match s.f.cell q n with
+  | some _ => { s with f := s.f.assign q n (some body) }
   | none =>
-    let ph : Bool := decide (s.v.cell s.cur n = some s.cur) &&
-      decide (s.v.defs s.cur n = some { exp := true, val := none })
+    let ph : Bool := decide (s.v.cell q n = some q) &&
+      decide (s.v.defs q n = some { exp := true, val := none })
     { s with
-      v := if ph then s.v.remove s.uses s.users s.cur n else s.v,
-      f := s.f.create s.users s.cur n { exp := ph, val := some body } }
+      v := if ph then s.v.remove s.uses s.users q n else s.v,
+      f := s.f.create s.users q n { exp := ph, val := some body } }
+
+/-- `(defun n …)`: `CurrentPackage.DefLambda`; `(defun q::n …)` / `(defun q:n …)`: `q.DefLambda`
+    (cl:defun unpacks the name and ignores the number of colons) -/
+def defun (s : State) (n : Nm) (body : Nat) : State := defunIn s s.cur n body
 
 /-- `CurrentPackage.Define(creator, doc)` from Go: a built-in style function `n`, exported unless
     `doc.NoExport` -/
@@ -291,6 +329,11 @@ inductive Op where
   | makunbound (n : Nm)
   | fmakunbound (n : Nm)
   | gdefine (n : Nm) (body : Nat) (exp : Bool)
+  | qsetq (q : Pk) (n : Nm) (priv : Bool) (val : Nat)            -- (setq q:n v) / (setq q::n v)
+  | qdefvar (q : Pk) (n : Nm) (priv : Bool) (val : Option Nat)   -- (defvar q:n [v]) / (defvar q::n [v])
+  | qdefun (q : Pk) (n : Nm) (body : Nat)                        -- (defun q::n …)
+  | unintern (q : Pk) (n : Nm)                                   -- (unintern 'n 'q)
+  | intern (q : Pk) (n : Nm)                                     -- (intern "n" 'q)
   deriving Repr
 
 def step (s : State) : Op → State
@@ -306,6 +349,11 @@ def step (s : State) : Op → State
   | .makunbound n => makunbound s n
   | .fmakunbound n => fmakunbound s n
   | .gdefine n b e => gdefine s n b e
+  | .qsetq q n pr v => qsetq s q n pr v
+  | .qdefvar q n pr v => qdefvar s q n pr v
+  | .qdefun q n b => defunIn s q n b
+  | .unintern q n => unintern s q n
+  | .intern q n => intern s q n
 
 def run (s : State) (ops : List Op) : State := ops.foldl step s
 
@@ -345,5 +393,38 @@ def resolveQual (defs : Pk → Nm → Option Def) (q : Pk) (n : Nm) (priv : Bool
   match defs q n with
   | some d => if d.exp ∨ priv then d.val else none
   | none => none
+
+/-! ## `find-symbol`: the status of a name in a package
+
+  0 = not accessible, 1 = `:internal` (own, not exported), 2 = `:external` (own, exported),
+  3 = `:inherited` (the entry of a used package). -/
+
+/-- status of the entry `c`'s table holds for `n` -/
+def Tab.status (t : Tab) (c : Pk) (n : Nm) : Nat :=
+  match t.entry c n with
+  | some (o, d) => if o = c then (if d.exp then 2 else 1) else 3
+  | none => 0
+
+/-- `(find-symbol "n")` in the current package `c` (cl:find-symbol): the variable entry
+    (`c.GetVarVal`) decides; without one the function entry `FindFunc` returns
+    (`fi.Export || CurrentPackage == fi.Pkg`) does. -/
+def findSymbol (s : State) (c : Pk) (n : Nm) : Nat :=
+  match s.v.entry c n with
+  | some _ => s.v.status c n
+  | none =>
+    match s.f.entry c n with
+    | some (o, d) => if d.exp ∨ c = o then s.f.status c n else 0
+    | none => 0
+
+/-- the status recomputed from the graph: own definition (exported or not), else inherited when
+    some directly used package exports the name -/
+def graphStatus (defs : Pk → Nm → Option Def) (uses : Pk → List Pk) (c : Pk) (n : Nm) : Nat :=
+  match defs c n with
+  | some d => if d.exp then 2 else 1
+  | none => if (candidates defs uses c n).isEmpty then 0 else 3
+
+/-- variable status if the name is a variable anywhere visible, else function status -/
+def symbolStatus (vdefs fdefs : Pk → Nm → Option Def) (uses : Pk → List Pk) (c : Pk) (n : Nm) : Nat :=
+  if graphStatus vdefs uses c n = 0 then graphStatus fdefs uses c n else graphStatus vdefs uses c n
 
 end SlipVerif.Pkg
